@@ -152,10 +152,13 @@ Definition trusted_fixed : list pystr :=
   [s2p "    cls"; s2p "source_object: Any = None"; s2p "*"; s2p "ignore_props: Iterable[str] = None"].
 
 Definition init_text (kws : list (pystr * pystr)) (kw : bool) : pystr := def_render init_head self_fixed kws kw.
+(* the classmethods leave out the keywords named like one of their own parameters (cls, source_object, ignore_props) *)
+Definition classmethod_text (l : list (pystr * pystr)) : list (pystr * pystr) :=
+  filter (fun kv => negb (str_in (fst kv) classmethod_own)) l.
 Definition methods_text (kws : list (pystr * pystr)) (kw : bool) : pystr :=
   join_strs nl [def_render clone_head self_fixed kws kw;
-                def_render other_head other_fixed kws kw;
-                def_render trusted_head trusted_fixed kws kw].
+                def_render other_head other_fixed (classmethod_text kws) kw;
+                def_render trusted_head trusted_fixed (classmethod_text kws) kw].
 
 (* the name of a rendered fixed parameter: leading blanks dropped, cut at the annotation *)
 Fixpoint drop_blanks (s : pystr) : pystr :=
